@@ -8,49 +8,49 @@ CHECKS = {
  'C01': ('panic recorder + per-case thread-CPU and peak-heap meters + CPU watchdog over enumerated/havoc inputs; libFuzzer+ASan and Miri in thorough',
          'Exploration: every truncation and -1/+1/0/max corruption of every length-like field of reference-encoded messages for all 40 types, bounded-exhaustive tails/RDATA bodies, enumerated pointer graphs, amplification inputs and seeded havoc are parsed under a process-wide panic recorder, a per-case CPU meter (250ms+40us/B) and a per-case heap meter (64KiB+1KiB/B). Held on the executions observed, not a proof over all 2^(8n) inputs.',
          'Trusts the calibration of the two thresholds (DESIGN.md C01) and the harness monitors; a defect that stays under the thresholds or outside the generated families is missed.'),
- 'C02': ('reference-model oracle: model packet -> public constructors -> build_bytes_vec -> parse -> field-by-field comparison in the model domain',
+ 'C02': ('reference-model oracle: model packet -> public constructors -> build_bytes_vec -> parse -> field-by-field comparison in the model domain; thorough adds coverage-guided libFuzzer+ASan tapes that drive the generators through the same oracle',
          'Exploration over generated packets (every typed variant with boundary-biased tuples, opaque/empty RDATA, classes x cache-flush, QTYPE/QCLASS specials, named opcode x rcode x flag subsets, OPT, binary labels).',
          'Trusts the bridge (public constructors/fields + read-only hooks) and the domain limits listed in DESIGN.md C02.'),
- 'C03': ('reference-model oracle comparing parse(compressed) with parse(plain) and the model; independent pointer counter',
+ 'C03': ('reference-model oracle comparing parse(compressed) with parse(plain) and the model; independent pointer counter; thorough adds coverage-guided libFuzzer+ASan tapes that drive the generators through the same oracle',
          'Exploration over suffix-sharing packets, a sweep that places a first occurrence at every offset 16360..16400, and messages up to 64 KB.',
          'Same trusted base as C02.'),
- 'C04': ('independent typed walker over every serialisation + writer-configuration matrix monitor',
+ 'C04': ('independent typed walker over every serialisation + writer-configuration matrix monitor; thorough adds coverage-guided libFuzzer+ASan tapes that drive the generators through the same oracle',
          'Exploration: outputs of all four entry points are walked by the reference decoder (counts, RDLENGTH, OPT once, no trailing bytes) and ~60-150 writer configurations per packet are compared byte for byte, incl. every capacity 0..len+2 of fixed writers and short-write/Interrupted writers.',
          'Trusts the reference typed decoder (cross-validated at setup).'),
- 'C05': ('independent RFC 1035 envelope walker run beside Packet::parse on every input; typed reference decode of each RDLENGTH slice',
+ 'C05': ('independent RFC 1035 envelope walker run beside Packet::parse on every input; typed reference decode of each RDLENGTH slice; thorough adds a coverage-guided libFuzzer+ASan target through the same oracle',
          'Exploration over RDLENGTH-stretched/shrunk records for all 40 types, the cut/perturb corpus and havoc.',
          'Walker and schema table are the trusted base; forward pointers and multiple OPT records are latitude.'),
- 'C06': ('reference RFC 1035 4.1.4 name decoder vs the library decoder (hook) on a bounded-exhaustive buffer space',
+ 'C06': ('reference RFC 1035 4.1.4 name decoder vs the library decoder (hook) on a bounded-exhaustive buffer space; Miri in thorough',
          'Bounded-exhaustive: every buffer of length <= 6 (quick) / 8 (thorough) over a 10-symbol alphabet at every start offset, plus boundary families and arbitrary-compression messages.',
          'Exhaustive only within the stated alphabet and length; reference decoder per DESIGN.md appendix B.'),
- 'C07': ('schema-aware walker recording every name occurrence of compressed output; per-pointer oracle',
+ 'C07': ('schema-aware walker recording every name occurrence of compressed output; per-pointer oracle; thorough adds coverage-guided libFuzzer+ASan tapes that drive the generators through the same oracle',
          'Exploration over suffix-sharing packets x three writer offsets x the 16 KiB window sweep; every pointer and every must-not-compress name inspected.',
          'Trusts the schema table for which RDATA names are compressible.'),
  'C08': ('8-line bit model vs parse / peeks / set-remove-has / build, exhaustively',
          'Exhaustive over all 65536 flag words x 4 ids, all 128x128 flag-set pairs, all named opcode x rcode x flag subsets on the build side.',
          'Bit model written from RFC 1035 4.1.1.'),
- 'C09': ('independent walker on written OPT records; reference-encoded third-party EDNS messages on the read side; hand-assembled RFC capture',
+ 'C09': ('independent walker on written OPT records; reference-encoded third-party EDNS messages on the read side; hand-assembled RFC capture; thorough adds coverage-guided libFuzzer+ASan tapes that drive the generators through the same oracle',
          'Exploration: write side tuples (rcode, version, udp, options, other records) and a full read-side sweep of 256 extended x 16 header rcodes, all versions, OPT at every position.',
          'Reference encoder layout is anchored by a hand-assembled capture.'),
  'C10': ('declarative RFC schema table + independent encoder: parse side field equality, write side byte equality, structural rejections',
          'Exploration: hundreds (quick) to tens of thousands (thorough) of boundary-biased tuples per type for all 40 types; rejection families; dnspython vectors.',
          'The ~40-row schema table (DESIGN.md appendix A) is trusted.'),
- 'C11': ('parse -> re-serialise (plain and compressed) -> parse, compared in the model domain, over foreign encodings',
+ 'C11': ('parse -> re-serialise (plain and compressed) -> parse, compared in the model domain, over foreign encodings; thorough adds a coverage-guided libFuzzer+ASan target through the same oracle',
          'Exploration over arbitrary-compression reference messages, all 65536 header words, empty RDATA of every type, stretched records, corpus perturbations and havoc.',
          'Observation through public fields + hooks.'),
- 'C12': ('panic recorder around every public observer applied to every part of parsed hostile packets',
+ 'C12': ('panic recorder around every public observer applied to every part of parsed hostile packets; thorough adds a coverage-guided libFuzzer+ASan target through the same oracle and Miri',
          'Exploration: ~100 observer calls per packet over hostile-byte reference messages, corpus and havoc.',
          'Only panics are judged.'),
- 'C13': ('executable store/reply model vs build_reply (hook) over a bounded-exhaustive universe of colliding names plus random histories',
+ 'C13': ('executable store/reply model vs build_reply (hook) over a bounded-exhaustive universe of colliding names plus random histories; thorough adds Miri and coverage-guided libFuzzer+ASan tapes through the same oracle',
          'Bounded-exhaustive: all stores of <= 3 (quick) / <= 4 (thorough) records over 6 colliding owner names x {A,TXT,SRV} x {authoritative,cached} x all 2352 queries of <= 2 questions; plus tens of thousands of random add/remove/clear histories with 9 record types, 2 classes, ANY/MAILB.',
          'Model reads the statement in its weaker sense where it is ambiguous (subdomain matches allowed, exact-name matches required).'),
- 'C14': ('global panic hook + RwLock poison probe + reply re-parse over the re-enacted handler pipelines (all inputs) and the real sync/tokio services on loopback multicast with marker queries (sampled)',
+ 'C14': ('global panic hook + RwLock poison probe + reply re-parse over the re-enacted handler pipelines (all inputs) and the real sync/tokio services on loopback multicast with marker queries (sampled); thorough adds valgrind memcheck on the real services and a coverage-guided libFuzzer+ASan target over the handling pipelines',
          'Exploration: ~3*10^5 (quick) datagrams through the three pipelines against a store shared with an application thread; 2400 (quick) / 50000 (thorough) datagrams through the real SimpleMdnsResponder, ServiceDiscovery and OneShotMdnsResolver loops (sync and tokio), each batch followed by marker queries, then lock-health probes through the public API.',
          'Level 1 re-enacts private loop bodies; level 2 needs loopback multicast (skipped and said so otherwise); missing marker replies without a panic are inconclusive.'),
- 'C15': ('announce -> compressed wire -> parse -> real ingest function (hook) -> store -> from_records, compared with the announced descriptions; channel values; bounded-exhaustive escape/unescape',
+ 'C15': ('announce -> compressed wire -> parse -> real ingest function (hook) -> store -> from_records, compared with the announced descriptions; channel values; bounded-exhaustive escape/unescape; thorough adds coverage-guided libFuzzer+ASan tapes that drive the generators through the same oracle',
          'Exploration over thousands of multi-peer histories in three modes (sync without/with channel, tokio) with foreign-traffic interleaving; escape/unescape exhaustive over a 5-symbol alphabet up to length 7/8.',
          'Domain limits of DESIGN.md C15.'),
- 'C16': ('owned-copy observer after the receive buffer is overwritten and dropped; fixed-key hash comparison of equal values built through different routes',
+ 'C16': ('owned-copy observer after the receive buffer is overwritten and dropped; fixed-key hash comparison of equal values built through different routes; Miri in thorough',
          'Exploration over parsed arbitrary-compression messages of all 40 types and InstanceInformation pairs built in 8 insertion orders each.',
          'DefaultHasher::new() is deterministic.'),
  'C17': ('independent label grammar and suffix algebra vs Name::new / Display / is_subdomain_of / without / is_link_local, bounded-exhaustive',
